@@ -122,6 +122,7 @@ func (e *entry) structural(si int) []mutant {
 	}
 	if e.SmallBinary {
 		ms = append(ms, leEveryOffset(s)...)
+		ms = append(ms, leConsistentTruncations(s, 0)...)
 	}
 	if e.Extra != nil {
 		ms = append(ms, e.Extra(s, si)...)
